@@ -91,6 +91,9 @@ def run(chk, tier, proof_ok):
     rf, rst = realsearch.reset_after_swap_findings(chk.seed * 59 + 3, 4 if tier == 'quick' else 24)
     chk.coverage['tall_ladder_reset_after_swap'] = rst
     findings = list(findings) + rf
+    nf, nst = realsearch.nested_reset_findings(chk.seed, full=(tier != 'quick') or trouble)
+    chk.coverage['nested_transdimensional_reset'] = nst
+    findings = findings + nf
     for key, text, payload in findings:
         chk.violation(key, text, payload, True)
     broken = []
